@@ -129,7 +129,7 @@ Definition classify_script (c : rcfg) (s : list ev) : option (list allowance) :=
       match c_role c with
       | Server => Some [AErr KStreamError (Some RFC_H3_MESSAGE_ERROR)
                              [CReset RFC_H3_MESSAGE_ERROR; CStop RFC_H3_MESSAGE_ERROR] [] (Some [])]
-      | Client => Some [AErr KStreamError (Some RFC_H3_MESSAGE_ERROR) [CStop RFC_H3_REQUEST_CANCELLED] [] None]
+      | Client => Some [AErr KStreamError (Some RFC_H3_MESSAGE_ERROR) [CStop RFC_H3_MESSAGE_ERROR] [] None]
       end
   | EHeaders HOversized :: _ =>
       (* RFC 9114 4.2.2: a server may answer 431; a client cancels the request *)
